@@ -393,6 +393,8 @@ def check_wrapper_shapes(model, rep):
                 for kind in ('bool', 'int', 'float', 'complex'):
                     kattrs = {k_: (Arr(v.shape, dtype=kind) if isinstance(v, Arr) and not isinstance(v, Scal) else v) for k_, v in attrs.items()}
                     kenv = {k_: (Arr(v.shape, dtype=kind) if isinstance(v, Arr) else v) for k_, v in env.items()}
+                    for p_ in params(f.node)[0]:
+                        kenv.setdefault(p_, Arr(['x0', 'x1', 'x2'], dtype=kind))   # the caller's operands have the kind under consideration
                     try:
                         if pre is not None and pre.func is not None:
                             accepted = True
